@@ -10,10 +10,10 @@ Import ListNotations.
 Open Scope Z_scope.
 
 Record opt_env := {
-  oe_master : host;
-  oe_states : list (host * node_state);     (* clusterStateDcs of this iteration *)
-  oe_cluster : list host;                   (* hosts app.cluster.Get knows *)
-  oe_low : Z; oe_high : Z }.                (* marks, seconds *)
+  ov_master : host;
+  ov_states : list (host * node_state);     (* clusterStateDcs of this iteration *)
+  ov_cluster : list host;                   (* hosts app.cluster.Get knows *)
+  ov_low : Z; ov_high : Z }.                (* marks, seconds *)
 
 Inductive opt_class := OcMalf | OcOptimized | OcOptimizing | OcDisabled | OcPanic.
 
@@ -30,8 +30,8 @@ Definition classify (env : opt_env) (mrs : Z * Z) (enabled : bool) (ons : option
     | None => OcMalf
     | Some lag =>
       if ns_is_master ns then OcMalf else
-      let near := lag <? oe_high env in
-      let conv := lag <? oe_low env in
+      let near := lag <? ov_high env in
+      let conv := lag <? ov_low env in
       if (near && negb enabled) || (conv && enabled) then OcOptimized
       else if enabled then OcOptimizing
       else match ns_repl_settings ns with
@@ -69,7 +69,7 @@ Fixpoint read_states (env : opt_env) (mrs : Z * Z) (hosts : list host) (p : opt_
       match r with
       | (_, Some e) => Ret (RdErr e)
       | (Some (Some en), None) =>
-          match classify env mrs en (assoc h (oe_states env)) with
+          match classify env mrs en (assoc h (ov_states env)) with
           | OcPanic => Panic 30065
           | c => read_states env mrs rest (plan_add p h c)
           end
@@ -82,7 +82,7 @@ Fixpoint stop_nodes (env : opt_env) (hosts : list host) (rs : Z * Z) : prog oerr
   match hosts with
   | [] => Ret None
   | h :: rest =>
-      if mem_host h (oe_cluster env) then
+      if mem_host h (ov_cluster env) then
         e <- set_repl_settings 11195 11199 h rs ;;
         match e with Some x => Ret (Some x) | None => stop_nodes env rest rs end
       else stop_nodes env rest rs
@@ -108,7 +108,7 @@ Definition can_be_optimized (rs : Z * Z) : bool :=
   if snd rs >=? 1000 then false else if negb (fst rs =? 2) && negb (fst rs =? 1) then false else true.
 
 Definition sync_node_options (env : opt_env) (h : host) : prog oerr :=
-  if negb (mem_host h (oe_cluster env)) then Panic 30214 else
+  if negb (mem_host h (ov_cluster env)) then Panic 30214 else
   r <- repl_settings 30214 h ;;
   match snd r with
   | Some e => Ret (Some e)
@@ -123,7 +123,7 @@ Definition balance (env : opt_env) (mrs : Z * Z) (p : opt_plan) : prog oerr :=
   | [h] => sync_node_options env h
   | [] =>
       match op_disabled p with
-      | d :: _ => if mem_host d (oe_cluster env) then optimize_replication d else Panic 30167
+      | d :: _ => if mem_host d (ov_cluster env) then optimize_replication d else Panic 30167
       | [] => Ret None
       end
   end.
@@ -133,9 +133,9 @@ Definition sync_act (env : opt_env) (mrs : Z * Z) (p : opt_plan) : prog oerr :=
   match e with Some x => Ret (Some x) | None => balance env mrs p end.
 
 Definition master_settings (env : opt_env) : prog ((Z * Z) * oerr) :=
-  match match assoc (oe_master env) (oe_states env) with Some ns => ns_repl_settings ns | None => None end with
+  match match assoc (ov_master env) (ov_states env) with Some ns => ns_repl_settings ns | None => None end with
   | Some rs => Ret (rs, None)
-  | None => if mem_host (oe_master env) (oe_cluster env) then repl_settings 30233 (oe_master env) else Panic 30233
+  | None => if mem_host (ov_master env) (ov_cluster env) then repl_settings 30233 (ov_master env) else Panic 30233
   end.
 
 Definition sync_with (env : opt_env) (mrs : Z * Z) : prog oerr :=
@@ -227,7 +227,7 @@ Definition choose_replica_to_optimize (env : opt_env) (desired : option host) (r
       match ps with
       | None => Ret None
       | Some positions =>
-          match most_desirable (S (length positions)) positions (oe_high env) with
+          match most_desirable (S (length positions)) positions (ov_high env) with
           | DesFound h => Ret (Some h)
           | _ => Ret None
           end
@@ -237,18 +237,18 @@ Definition choose_replica_to_optimize (env : opt_env) (desired : option host) (r
 (* up to and including Enable: None = nothing to wait for *)
 Definition phase_prefix (cfg : config) (env : opt_env) (sw : switch_rec) (active : list host) : prog (option host) :=
   if negb (c_semi_sync cfg) then Ret None else
-  let replicas := filter_out active (oe_master env :: match sw_from sw with Some f => [f] | None => [] end) in
+  let replicas := filter_out active (ov_master env :: match sw_from sw with Some f => [f] | None => [] end) in
   t <- choose_replica_to_optimize env (sw_to sw) replicas ;;
   match t with
   | None => Ret None
   | Some target =>
-      if negb (mem_host target (oe_cluster env)) then Panic 40224 else
+      if negb (mem_host target (ov_cluster env)) then Panic 40224 else
       e <- opt_enable target ;;
       match e with Some _ => Ret None | None => Ret (Some target) end
   end.
 
 Definition wait_branch (fuel : nat) (env : opt_env) (target : host) (deadline : Z) : prog resp :=
-  e <- opt_wait fuel (oe_low env * sec) target deadline 0 ;; Ret (match e with Some x => RErr x | None => ROk end).
+  e <- opt_wait fuel (ov_low env * sec) target deadline 0 ;; Ret (match e with Some x => RErr x | None => ROk end).
 
 Definition optimization_phase (fuel : nat) (cfg : config) (env : opt_env) (sw : switch_rec) (active : list host) (timeout : Z) : prog unit :=
   t <- phase_prefix cfg env sw active ;;
